@@ -79,6 +79,7 @@ def body(ck, F, cfg):
             okk = bool(hit) and any(hit[0] in pre for ch, pre in before_ch.items() if ch[1] == "u")
             # inside the star the round challenge follows; checked on the star body in C10 R10.6
             ck.require(bool(hit), "R04.2", f"absorbed:{n}", f"list {n} is never absorbed")
+            continue_ipp = True
             continue
         okk = any(s in on_all for s in hit) and any(any(s in pre for s in hit) for ch, pre in before_ch.items())
         ck.require(okk, "R04.2", f"absorbed:{n}", f"proof field {n} must be absorbed on every accepting verifier path before a later challenge")
@@ -89,6 +90,14 @@ def body(ck, F, cfg):
             continue
         pres = [pre for ch, pre in before_ch.items() if ch[1] == lbl]
         ck.require(bool(pres) and all(any(s in pre for s in hit) for pre in pres), "R04.2", f"bound-by:{n}", f"proof field {n} must be absorbed before challenge `{lbl}` is squeezed on every path (otherwise {n} can be changed after the challenge that weights it is known)")
+    # L_j, R_j are weighted by u_j^2, u_j^-2: each round's challenge must be squeezed from the transcript after that round's
+    # pair was absorbed, and the scalars must be built from that very squeeze (C10's R10.3 u_sq/u_inv_sq + R10.6, by reference;
+    # added after seeded change C04i, where the round challenges came from a stream keyed once before the rounds)
+    from .. import ipp as _ipp
+    from . import C10 as _C10
+
+    A_vs = _ipp.check_vs(ck, F, "R04.2")
+    _C10.round_schedule_rule(ck, F, A_vs, "R04.2")
     # the verifier-only weight r joins the two relations: every field must be absorbed before the fork r is squeezed from
     flat = AN.flat_trace(I.trace.items)
     forked, late, r_ops = False, [], 0
@@ -141,6 +150,6 @@ CLAIM = {
     "technique": "static: per-field coverage of the combined check (symbolic scalars) and of the transcript schedule; decoder who-may-call",
     "text": "Decides the necessary structural condition for non-malleability: every field enumerated from the proof types enters the verification equation with a non-zero "
     "challenge-dependent scalar and (except a, b) is absorbed before the challenge that weights its own relation (A/S before y, T_i before x, "
-    "t_x/t_x_blinding/e_blinding before w) and before the fork the batching weight r is squeezed from; decoding is the validated one.",
+    "t_x/t_x_blinding/e_blinding before w, each L_j/R_j before the round challenge u_j its scalars are built from) and before the fork the batching weight r is squeezed from; decoding is the validated one.",
     "note": "trusted: soundness of the reference equation (C02/C03) makes a bound, weighted field non-malleable; ark-serialize validation",
 }
